@@ -315,6 +315,12 @@ def finish(
     # deterministic order, write replays for the first few new violations
     new.sort(key=lambda v: (v["sub"], v["key"]))
     rdir = os.path.join(VERIF, "replays", prop)
+    if os.path.isdir(rdir):  # replay files of earlier runs are stale
+        for fn in os.listdir(rdir):
+            try:
+                os.remove(os.path.join(rdir, fn))
+            except OSError:
+                pass
     printed = 0
     by_sub = Counter()
     for v in new:
